@@ -21,7 +21,13 @@ Open Scope Z_scope.
 Definition memory := Z -> Z.               (* address -> byte *)
 Definition machine := chip -> memory.
 
-Definition zseq (n : Z) : list Z := map Z.of_nat (seq 0 (Z.to_nat n)).
+(* [0; 1; ...; n-1] (an accumulator in Z: evaluation stays linear) *)
+Fixpoint zseq_from (start : Z) (n : nat) : list Z :=
+  match n with
+  | O => []
+  | S k => start :: zseq_from (start + 1) k
+  end.
+Definition zseq (n : Z) : list Z := zseq_from 0 (Z.to_nat n).
 Definition zlen {A} (l : list A) : Z := Z.of_nat (length l).
 
 (* bytes per unit of a data type (consts.DataType, from the live enum) *)
